@@ -49,6 +49,21 @@ fn decode_case(em: &mut Emitter, mode: u8, c: &[u8]) {
                 let fs = Constructed::decode(foreign.as_slice().into_source(), mode_of(mode), |cons| BitString::skip_in(cons)).is_ok();
                 if ft || fs { lazy_same = false; }
             }
+            // cut short by the end of the input (alone and inside a SEQUENCE announcing the full size): both fail
+            if !c.is_empty() {
+                for cut in [t.len() - 1, t.len() - c.len().min(2), t.len() - c.len()] {
+                    let short = &t[..cut];
+                    let tt = Constructed::decode(short.into_source(), mode_of(mode), |cons| BitString::take_from(cons)).is_ok();
+                    let ts = Constructed::decode(short.into_source(), mode_of(mode), |cons| BitString::skip_in(cons)).is_ok();
+                    if tt || ts { lazy_same = false; }
+                    if mode != 1 && t.len() < 120 {
+                        let mut w = vec![0x30u8, t.len() as u8]; w.extend_from_slice(short);
+                        let wt = Constructed::decode(w.as_slice().into_source(), mode_of(mode), |cons| cons.take_sequence(|k| BitString::take_from(k).map(|_| ()))).is_ok();
+                        let ws = Constructed::decode(w.as_slice().into_source(), mode_of(mode), |cons| cons.take_sequence(|k| BitString::skip_in(k))).is_ok();
+                        if wt || ws { lazy_same = false; }
+                    }
+                }
+            }
             if mode != 1 {
                 let es = Constructed::decode([0x30u8, 0x00].as_ref().into_source(), mode_of(mode), |cons| cons.take_sequence(|k| BitString::skip_in(k))).is_ok();
                 let et = Constructed::decode([0x30u8, 0x00].as_ref().into_source(), mode_of(mode), |cons| cons.take_sequence(|k| BitString::take_from(k).map(|_| ()))).is_ok();
@@ -60,7 +75,7 @@ fn decode_case(em: &mut Emitter, mode: u8, c: &[u8]) {
             Some((take, skip, ctake, cskip, lazy_same)) => {
                 let exp = ref_accept(mode, c);
                 let mut obs = Ints::new();
-                let mut orc = if lazy_same { Oracle::Pass } else { Oracle::Fail("bit-string-take-and-skip-disagree-across-sources-or-accept-where-no-bit-string-is".into()) };
+                let mut orc = if lazy_same { Oracle::Pass } else { Oracle::Fail("bit-string-take-and-skip-disagree-across-sources-or-accept-where-no-complete-bit-string-is".into()) };
                 match &take {
                     Some(bs) => {
                         let oct = bs.octet_bytes();
@@ -121,7 +136,17 @@ fn enc_case(em: &mut Emitter, unused: u8, bits: &[u8]) {
             let mut s1 = Vec::new(); bcder::encode::sequence((BitString::encode_slice(bits, unused), bs.encode_ref())).write_encoded(Mode::Der, &mut s1).unwrap();
             let inner_len = 2 * w1.len();
             let mut want = vec![0x30u8]; want.extend(crate::gen::ref_len_octets(inner_len)); want.extend_from_slice(&w1); want.extend_from_slice(&w1);
-            let l1 = if s1 == want { l1 } else { usize::MAX };
+            let mut l1 = if s1 == want { l1 } else { usize::MAX };
+            // the same under other tags, with one to four identifier octets: announced = written = reference
+            for (cls, num) in [(2u8, 0u32), (2, 30), (2, 31), (1, 127), (3, 128), (2, 16383), (2, 16384), (0, 0x1f_ffff)] {
+                let tag = crate::c12::mk_tag(cls, num);
+                let mut id = Vec::new(); tag.write_encoded(false, &mut id).unwrap();
+                let mut want_t = id.clone(); want_t.extend_from_slice(&w1[1..]);
+                let e1 = BitString::encode_slice_as(bits, unused, tag); let e2 = bs.encode_ref_as(tag);
+                let mut a = Vec::new(); e1.write_encoded(Mode::Der, &mut a).unwrap();
+                let mut b = Vec::new(); e2.write_encoded(Mode::Ber, &mut b).unwrap();
+                if a != want_t || b != want_t || e1.encoded_len(Mode::Der) != want_t.len() || e2.encoded_len(Mode::Ber) != want_t.len() { l1 = usize::MAX; }
+            }
             (content, el, w1, w2, l1, l2)
         });
         match r {
